@@ -219,6 +219,46 @@ class Rig:
         await sd.drive(step, [("x", t) for t in inputs] + [("x", TerminationToken(Status[term]))], imposed=False)
         return list(p_out.token_list), list(step.get_size_port().token_list), step
 
+    async def scatter_run(self, events: list) -> tuple[list[Token], list[Token], bool]:
+        """a real ScatterStep fed one token at a time; events = ['l', tag, n] (ListToken of n ints) | ['o', tag] (a plain Token) |
+        ['t', STATUS] | ['r', [tags]] (ScatterStep.restore with on_tokens = tokens carrying these tags, called while the step is idle).
+        Returns the logs of the (possibly replaced) element port and of the size port, and whether run() raised."""
+        wf = self._wf()
+        p_in, p_out = wf.create_port(), wf.create_port()
+        step = wf.create_step(cls=ScatterStep, name="/s/x-scatter")
+        step.add_input_port("x", p_in)
+        step.add_output_port("x", p_out)
+        await wf.save(self.context.database)
+        task = asyncio.create_task(step.run())
+        raised = False
+        try:
+            await sd.settle(step, task, ["x"])
+            for e in events:
+                if e[0] == "r":
+                    await step.restore({p_out.name: [Token(value=None, tag=t) for t in e[1]]})
+                    continue
+                if task.done():
+                    break
+                tok = (ListToken(tag=e[1], value=[Token(value=i, tag=e[1]) for i in range(e[2])]) if e[0] == "l"
+                       else Token(value="plain", tag=e[1]) if e[0] == "o" else TerminationToken(Status[e[1]]))
+                await sd.save_tokens(self.context, p_in, [tok])
+                p_in.put(tok)
+                for _ in range(sd.TERM_SPINS):
+                    await asyncio.sleep(0)
+                await sd.settle(step, task, ["x"])
+            if not task.done():       # no termination token in the stream: the step is blocked on its port
+                task.cancel()
+            try:
+                await task
+            except asyncio.CancelledError:
+                pass
+            except Exception:  # noqa: BLE001
+                raised = True
+        finally:
+            if not task.done():
+                task.cancel()
+        return list(wf.ports[p_out.name].token_list), list(step.get_size_port().token_list), raised
+
     async def gather(self, depth: int, events: list, imposed: bool) -> tuple[list[Token], GatherStep]:
         """run a real GatherStep; events = ('e', tok) | ('s', tok) | ('te', status) | ('ts', status)"""
         wf = self._wf()
@@ -393,6 +433,20 @@ class C01(Property):
             cwl = []
         for levels, value in cwl:
             yield {"op": "cwl", "levels": levels, "value": value}
+        # ScatterStep.run as a whole: several inputs, a non-list token, any termination status, restore (FilterTokenPort)
+        for i in range(80 if wide else 24):
+            evs, tags = [], rng.sample(["0", "1", "2", "0.3", "0.10", "10"], rng.randint(1, 4))
+            for t in tags:
+                evs.append(["o", t] if rng.random() < 0.08 else ["l", t, rng.choice([0, 0, 1, 2, 3, 11, 12])])
+            if rng.random() < 0.45:
+                pool = [f"{e[1]}.{k}" for e in evs if e[0] == "l" for k in range(e[2])]
+                valid = sorted(rng.sample(pool, rng.randint(0, len(pool)))) if pool else []
+                if rng.random() < 0.3:
+                    valid.append("7.7")
+                evs.insert(rng.randint(0, len(evs)), ["r", valid])
+            if rng.random() < 0.9:
+                evs.append(["t", rng.choice(STATUSES)])
+            yield {"op": "scatterrun", "events": evs}
         # incomplete streams: the forced-gathering branch (the property's premise fails; model vs code only)
         for _ in range(60 if wide else 20):
             n = rng.choice([0, 1, 2, 3, 11])
@@ -468,6 +522,30 @@ class C01(Property):
                 self._monitor(ctx, case, out, [expect_tree(case["f"], case["value"], levels, case["tag"])])
             ctx.case({"case": _brief(case)}, ("nested", levels, case["single_gather"], repr(case["value"])[:200], case["oseed"]),
                      f"nested-{levels}" + ("-single-gather" if case["single_gather"] else ""))
+        elif op == "scatterrun":
+            evs = case["events"]
+            elems, sizes, raised = await rig.scatter_run(evs)
+            words = [f"l:{e[1]}:{e[2]}" if e[0] == "l" else f"o:{e[1]}" if e[0] == "o" else f"t:{e[1]}" if e[0] == "t"
+                     else "r:" + (",".join(e[1]) or "-") for e in evs]
+            terms = [t for t in elems if isinstance(t, TerminationToken)]
+            tsz = [t for t in sizes if isinstance(t, TerminationToken)]
+            ok_term = len(terms) <= 1 and len(tsz) == len(terms) and (not terms or (elems[-1] is terms[0] and sizes[-1] is tsz[0]
+                                                                                       and terms[0].value == tsz[0].value))
+            real = ((",".join(f"{t.tag}:{t.value}" for t in elems if not isinstance(t, TerminationToken)) or "-") + "|sizes=" +
+                    (",".join(f"{t.tag}:{t.value}" for t in sizes if not isinstance(t, TerminationToken)) or "-") + "|term=" +
+                    ((terms[0].value.name if terms else "-") if ok_term else "INCONSISTENT") + ("|raised" if raised else ""))
+            exp = (real, "exact", dict(case, stage="scatterrun"))
+            self._lines.append("scatterrun " + " ".join(words))
+            self._expect.append(exp)
+            if all(e[0] in ("l", "t") for e in evs) and evs and evs[-1][0] == "t":
+                # the property's part: element i of every list retagged tag.i in order, one size token per list, both ports terminated
+                exp_e = [f"{e[1]}.{k}" for e in evs if e[0] == "l" for k in range(e[2])]
+                exp_s = [(e[1], e[2]) for e in evs if e[0] == "l"]
+                got_e = [t.tag for t in elems if not isinstance(t, TerminationToken)]
+                got_s = [(t.tag, t.value) for t in sizes if not isinstance(t, TerminationToken)]
+                if got_e != exp_e or got_s != exp_s or not terms:
+                    ctx.fail("scatter:wrong-tags-or-size", f"scatter run {words}: elements {got_e[:30]} sizes {got_s} terminated {bool(terms)}", case)
+            ctx.case({"case": case, "real": real[:300]}, ("scatterrun", tuple(words)), "scatterrun")
         elif op == "pipeline":
             await self._pipeline(ctx, rig, case)
         elif op == "cwl":
